@@ -79,10 +79,16 @@ def replacement_matrix():
         else:
             pool = [("leaf", 3), ("leaf", 3), ("leaf", 5), ("leaf", 7), ("leaf", 9), ("node", 2), ("node", 2), ("node", 4)]
         mk = lambda t, d: ["new", d, kind == "B" and t == "node", t == "leaf"]
-        reads = lambda: [[t, p] for p in (0, 1) for t in (("hash", "ent", "mod") if kind == "B" else ("hash",))]
-        for io, (to, do) in enumerate(pool):
+        all_reads = lambda: [[t, p] for p in (0, 1) for t in (("hash", "ent", "mod") if kind == "B" else ("hash",))]
+        small = {0, 2, 3, 5, 7} if kind == "B" else {0, 2, 3, 5}
+        for first_reads in (("all", "ent", "mod", "none") if kind == "B" else ("all", "none")):
+          # what is read BEFORE the replacement: everything, only the entry lists, only the model
+          # objects, or nothing (each derived cache can be filled while the others are not)
+          reads = all_reads
+          pre = {"all": all_reads, "ent": lambda: [["ent", 1], ["ent", 0]], "mod": lambda: [["mod", 1], ["mod", 0]], "none": lambda: []}[first_reads]
+          for io, (to, do) in enumerate(pool):
             for jn, (tn, dn) in enumerate(pool):
-                if io == jn:
+                if io == jn or (first_reads != "all" and not (io in small and jn in small)):
                     continue
                 for pre_hash in (False, True):
                     for shared in (False, True):
@@ -98,7 +104,7 @@ def replacement_matrix():
                             ops += [["set", 1, 2, nm(b"x")], ["set", 0, 1, nm(b"s")]]
                             if shared:
                                 ops += [["set", 4, 3, nm(b"y")]]
-                            ops += reads()
+                            ops += pre()
                             if pre_hash:
                                 ops += [["hash", 4 if shared else 3]]
                             if how == "set":
@@ -107,6 +113,8 @@ def replacement_matrix():
                                 ops += [["set", 0, 3, nm(b"s"), nm(b"x")]]
                             else:
                                 ops += [["upd", 1, [[nm(b"x"), 3]]]]
+                            if first_reads in ("ent", "mod") :
+                                ops += pre()
                             ops += reads()
                             n = len([o for o in ops if o[0] == "new"])
                             ops += [["hash", i] for i in range(n)]
